@@ -21,6 +21,31 @@ func schedCheck(rule string) func(c *h.Ctx) {
 		// race-detector pass on a lighter sample of the same workload
 		runWorkers(c, workerOpts{Mode: "sched", Race: true, Shards: 8, Timeout: time.Duration(c.N(8, 40)) * time.Minute, Extra: []string{"light=1"}, Anchors: schedAnchors})
 		runWorkers(c, workerOpts{Mode: "schedfree", Race: true, Shards: 4, Timeout: time.Duration(c.N(8, 30)) * time.Minute, Anchors: schedAnchors})
+		if c.ID == "C03" {
+			// cancelled runs on the real TaskRunner (child process each): caller Cancel and stage-condition error
+			var specs []cancelSpec
+			for k := 0; k <= 3; k++ {
+				for _, w := range []int{1, 2} {
+					specs = append(specs, cancelSpec{K: k, W: w, Mode: "pipeline", Point: "cond-error", Cancels: "once", Via: "cond", Cmd: "sleep"})
+					specs = append(specs, cancelSpec{K: k, W: w, Mode: "pipeline", Point: "during-command", Cancels: "once", Via: "scheduler", Cmd: "sleep"})
+				}
+				specs = append(specs, cancelSpec{K: k, W: 0, Mode: "pipeline", Point: "after-finished", Cancels: "once", Via: "scheduler", Cmd: "sleep"})
+			}
+			h.Par(len(specs), 16, func(i int) {
+				specs[i].Idx = 5000 + i
+				if runCancelCase(c, specs[i], false, true) == "suspect" {
+					again := 0
+					for k := 0; k < 3; k++ {
+						if runCancelCase(c, specs[i], false, false) == "suspect" {
+							again++
+						}
+					}
+					if again == 3 {
+						c.Violate("cancelled-run-did-not-return/real-runner", "cancelled pipeline on the real TaskRunner exceeded its bound four times", specs[i])
+					}
+				}
+			})
+		}
 	}
 }
 
